@@ -9,6 +9,7 @@ import (
 	"os"
 	"sort"
 	"strconv"
+	"time"
 )
 
 type streamFn func(c *Ctx)
@@ -50,6 +51,27 @@ func main() {
 		c := NewCtx(*stream, def.property, *tier, *seed, *out)
 		activeCtx = c
 		guardOps = *stream != "codec" && *stream != "timeout" // pure functions, millions of ops
+		// a broken implementation can make every operation very slow (giant allocations after a
+		// desynchronised stream): once the oracle has failing inputs there is nothing to wait for
+		go func() {
+			soft := 40 * time.Second
+			if *tier == "thorough" {
+				soft = 10 * time.Minute
+			}
+			start := time.Now()
+			for {
+				time.Sleep(time.Second)
+				c.mu.Lock()
+				nf := len(c.fails)
+				c.mu.Unlock()
+				if nf > 0 && time.Since(start) > soft {
+					c.Note("stream stopped early: %d oracle failures after %v", nf, time.Since(start).Round(time.Second))
+					c.Close()
+					fmt.Printf("stream=%s stopped early (slow, %d oracle failures)\n", c.Stream, nf)
+					os.Exit(0)
+				}
+			}
+		}()
 		def.fn(c)
 		c.Close()
 		fmt.Printf("stream=%s ops=%d nontrivial=%d oracle_failures=%d\n", *stream, c.n, c.nontriv, len(c.fails))
